@@ -315,6 +315,8 @@ impl<L> ClientBuilder<L> {
 		let (client_dropped_tx, client_dropped_rx) = oneshot::channel();
 		let (send_receive_task_sync_tx, send_receive_task_sync_rx) = mpsc::channel(1);
 		let manager = ThreadSafeRequestManager::new();
+		#[cfg(feature = "verif-hooks")]
+		let verif_manager = manager.clone();
 
 		let (ping_interval, inactivity_stream, inactivity_check) = match self.ping_config {
 			None => (IntervalStream::pending(), IntervalStream::pending(), InactivityCheck::Disabled),
@@ -367,6 +369,8 @@ impl<L> ClientBuilder<L> {
 			error: ErrorFromBack::new(to_back, disconnect_reason),
 			id_manager: RequestIdManager::new(self.id_kind),
 			on_exit: Some(client_dropped_tx),
+			#[cfg(feature = "verif-hooks")]
+			verif_manager,
 		}
 	}
 
@@ -389,6 +393,8 @@ impl<L> ClientBuilder<L> {
 		let (client_dropped_tx, client_dropped_rx) = oneshot::channel();
 		let (send_receive_task_sync_tx, send_receive_task_sync_rx) = mpsc::channel(1);
 		let manager = ThreadSafeRequestManager::new();
+		#[cfg(feature = "verif-hooks")]
+		let verif_manager = manager.clone();
 
 		let ping_interval = PendingIntervalStream::pending();
 		let inactivity_stream = PendingIntervalStream::pending();
@@ -426,6 +432,8 @@ impl<L> ClientBuilder<L> {
 			error: ErrorFromBack::new(to_back, disconnect_reason),
 			id_manager: RequestIdManager::new(self.id_kind),
 			on_exit: Some(client_dropped_tx),
+			#[cfg(feature = "verif-hooks")]
+			verif_manager,
 		}
 	}
 }
@@ -443,6 +451,9 @@ pub struct Client<L = RpcLogger<RpcService>> {
 	/// When the client is dropped a message is sent to the background thread.
 	on_exit: Option<oneshot::Sender<()>>,
 	service: L,
+	/// Handle to the request manager shared with the background tasks.
+	#[cfg(feature = "verif-hooks")]
+	verif_manager: ThreadSafeRequestManager,
 }
 
 impl Client<Identity> {
@@ -482,6 +493,13 @@ impl<L> Client<L> {
 	/// Returns configured request timeout.
 	pub fn request_timeout(&self) -> Duration {
 		self.request_timeout
+	}
+
+	/// Sizes of the internal tables: requests, subscriptions, batches, notification handlers.
+	#[cfg(feature = "verif-hooks")]
+	#[doc(hidden)]
+	pub fn verif_table_sizes(&self) -> [usize; 4] {
+		self.verif_manager.lock().verif_table_sizes()
 	}
 }
 
@@ -807,6 +825,7 @@ async fn handle_frontend_messages<S: TransportSenderT>(
 				return Ok(());
 			}
 
+			crate::verif_point!("client.send_task.before_send_batch");
 			sender.send(batch.raw).await?;
 		}
 		// User called `notification` on the front-end
@@ -824,6 +843,7 @@ async fn handle_frontend_messages<S: TransportSenderT>(
 				return Ok(());
 			}
 
+			crate::verif_point!("client.send_task.before_send_request");
 			sender.send(request.raw).await?;
 		}
 		// User called `subscribe` on the front-end.
@@ -844,6 +864,7 @@ async fn handle_frontend_messages<S: TransportSenderT>(
 				return Ok(());
 			}
 
+			crate::verif_point!("client.send_task.before_send_subscribe");
 			sender.send(sub.raw).await?;
 		}
 		// User dropped a subscription.
@@ -944,7 +965,9 @@ where
 	};
 
 	from_frontend.close();
+	crate::verif_point!("client.send_task.frontend_closed");
 	let _ = sender.close().await;
+	crate::verif_point!("client.send_task.transport_closed");
 	let _ = close_tx.send(res).await;
 }
 
@@ -1000,6 +1023,7 @@ where
 				inactivity_check.mark_as_active();
 				let Some(msg) = maybe_msg else { break Ok(()) };
 
+				crate::verif_point!("client.read_task.message_received");
 				match handle_backend_messages::<R>(Some(msg), &manager, max_buffer_capacity_per_subscription) {
 					Ok(messages) => {
 						for msg in messages {
@@ -1020,6 +1044,7 @@ where
 		}
 	};
 
+	crate::verif_point!("client.read_task.before_close_tx");
 	let _ = close_tx.send(res).await;
 }
 
@@ -1034,6 +1059,7 @@ async fn wait_for_shutdown(
 
 	// Send an error to the frontend if the send or receive task completed with an error.
 	if let Either::Left((Some(Err(err)), _)) = future::select(rx_item, client_dropped).await {
+		crate::verif_point!("client.shutdown.before_store_cause");
 		*err_to_front.write().expect(NOT_POISONED) = Some(Arc::new(err));
 	}
 }
